@@ -62,6 +62,12 @@ def semantic_check(ctx, rng, cfg, d, raw, info, trials=6):
 def run(ctx):
     rng = ctx.rng
     cs = c07.cases(ctx, ctx.budget(500, 10000), multi_match=False, mixes=False, misuse=0.03, bool_ops=True)
+    for _, cfg, _ in cs:
+        # a fuzziness / slop in the clause must be the query's own here (C06 covers the merging of per-field options)
+        for opts in (cfg.get("field_options") or {}).values():
+            if isinstance(opts, dict):
+                opts.pop("fuzziness", None)
+                opts.pop("slop", None)
     from .. import trees
     hist = trees.SharedObjects(ctx, rng, "ElasticsearchQueryBuilder", known_params={"tree"})
     I = common.impl()
